@@ -1,5 +1,5 @@
 \* exhaustive, grid/cache focus, 3 grid values, deeper (thorough)
-CONSTANTS N = 3  Par = {"p", "q"}  NVal = 2  NGrid = 3  MaxDepth = 3  MaxLevel = 8
+CONSTANTS N = 3  Par = {"p", "q"}  NVal = 2  NGrid = 3  MaxDepth = 3  MaxLevel = 7
           GridSlot = "stack"  PickleSerial = "fresh"
 CONSTANTS Keeps <- KeepsNone  Acts <- ActsGrid  Parent0 <- ParentB  Cls0 <- ClsB
           ParOf <- McParOf  GridCls <- McGridCls  MatCls <- McMatCls
